@@ -205,9 +205,18 @@ def run_case(case):
         if max([abs(a[1]) for a in atA] + [abs(a[1]) for a in atB] + [abs(fA)]) > 1e4 or not C.phys_ok(phA, 1e4) \
                 or not C.phys_ok(phB, 1e4):
             continue       # badly conditioned point (huge expression values): relative comparison not meaningful
+        rt = 1e-8
+        if cls == "SS":
+            # single shooting: the same physical start is propagated by two differently rounded recursions
+            from ..ref import model
+            amp = model.RefModel(specB, phB, None).amplification()
+            if amp > 1e5:
+                res["counters"]["chaotic_points"] = res["counters"].get("chaotic_points", 0) + 1
+                continue
+            rt = max(1e-8, 1e-12 * amp)
         res["counters"]["transported_points"] += 1
         res["evals"] += 1
-        if abs(fA - fB) > 1e-8 * (1 + abs(fA) + abs(fB)):
+        if abs(fA - fB) > rt * (1 + abs(fA) + abs(fB)):
             res["violations"].append({"kind": "objective", "mech": "C14|objective-changed-by-scaling",
                                       "detail": "f scaled %.12g, unscaled %.12g" % (fA, fB)})
             break
@@ -217,7 +226,7 @@ def run_case(case):
             A = [(a[0], a[1]) for a in atA if a[2] == c["cid"]]
             B = [(a[0], a[1] / sc) for a in atB if a[2] == c["cid"]]
             s_ = 1.0 + max([abs(v) for _, v in A] + [abs(v) for _, v in B] + [0.0])
-            un_a, un_b = nlp.match_multiset(A, B, scale=s_, rtol=1e-8)
+            un_a, un_b = nlp.match_multiset(A, B, scale=s_, rtol=rt)
             res["evals"] += 1
             res["counters"]["constraint_compares"] += 1
             if un_a or un_b:
